@@ -238,7 +238,8 @@ fn spearman_case(ctx: &mut Ctx, rng: &mut Rng, x: &Series, y: &Series) {
         Err(p) => ctx.violation(&format!("vcorr_pearson_method/panic/{}", panic_key(&p)), || p.clone()),
     }
     // invariance under strictly increasing maps of either series (ranks are identical → exact)
-    if int_valued(&[x, y]) && maxabs(&x.iter().flatten().copied().collect::<Vec<_>>()) <= 20.0 {
+    // (both series must be small: exp(y/4) of a LargeOffset series overflows to inf and is no longer strictly increasing)
+    if int_valued(&[x, y]) && maxabs(&x.iter().chain(y.iter()).flatten().copied().collect::<Vec<_>>()) <= 20.0 {
         let maps: [(&str, fn(f64) -> f64); 3] = [("2x+1", |v| 2.0 * v + 1.0), ("x^3", |v| v * v * v), ("exp(x/4)", |v| (v / 4.0).exp())];
         for (mn, f) in maps {
             ctx.evaluations += 1;
@@ -375,7 +376,7 @@ fn main() {
             }
         }
     }
-    let nr = ctx.budget(2000, 40000);
+    let nr = ctx.cbudget(2000, 40000);
     for k in 0..nr {
         if let Some(mut rng) = ctx.random_case() {
             let len = rng.range_usize(2, 120);
